@@ -2,6 +2,7 @@
 package endpoint
 
 import (
+	"github.com/brutella/hc/db"
 	"bytes"
 	"crypto/ed25519"
 	"encoding/binary"
@@ -65,6 +66,17 @@ func Harness_C04_q_pair_verify_talk() {
 	idLen := []int{1, 36}[verif.Choice("idlen", 2)]
 	ctrlID := verif.Bytes("controller-id", idLen)
 	ctrlPub, ctrlPriv, _ := ed25519.GenerateKey(nil)
+	// storage contents before pairing: nothing, a stale pairing under the same identifier
+	// with another key (the controller was reset and pairs again), or somebody else's pairing
+	stalePub, _, _ := ed25519.GenerateKey(nil)
+	switch verif.Choice("storage", 3) {
+	case 1:
+		verif.Fact("storage", "stale pairing with the same identifier")
+		w.db.SaveEntity(db.NewEntity(string(ctrlID), stalePub, nil))
+	case 2:
+		verif.Fact("storage", "unrelated pairing")
+		w.db.SaveEntity(db.NewEntity("someone-else", stalePub, nil))
+	}
 
 	// ---- pair-setup ----
 	rec, p := eePost(w.setup, "/pair-setup", remote, eeTLV(pair.TagPairingMethod, byte(0), pair.TagSequence, byte(1)))
